@@ -34,7 +34,7 @@ def expand(c):
     sup_rule = {(t["rule"], t["file"], t["commented"], t["against"]) for t in c["supRule"]}
     out = []
     for r in c["selected"]:
-        for f in ("x", "y", "z", "imp", "s1", "s2"):
+        for f in ("x", "y", "z", "imp", "imp2", "s1", "s2"):
             for a in ((f, "s2") if f == "s1" else (f,)):
                 for cm in (False, True):
                     if (f, cm, a) not in sup_all and (r, f, cm, a) not in sup_rule:
